@@ -293,7 +293,7 @@ func checkC05(c *core.Ctx) []core.Floor {
 // ---------- C06 ----------
 
 func checkC06(c *core.Ctx) []core.Floor {
-	c.Rule = "up to three tables of 0-12 rows sharing column names, with duplicate and missing join keys and empty sides; chains of 1-2 joins mixing INNER (with and without the keyword), LEFT, RIGHT, ON = key equality optionally combined with further comparisons, self-joins under two aliases, qualifier = alias when given else table name; compared as multisets with join-by-definition over the model (NULL padding explicit). Ambiguity probes: an unqualified name that exists on both sides must be rejected with an error. Distinct = query text; non-trivial = non-empty expected result or an ambiguity probe."
+	c.Rule = "up to three tables of 0-12 rows sharing column names, with duplicate and missing join keys and empty sides; chains of 1-2 joins mixing INNER (with and without the keyword), LEFT, RIGHT, ON = key equality optionally combined with further comparisons, self-joins under two aliases, qualifier = alias when given else table name; compared as multisets with join-by-definition over the model (NULL padding explicit). Ambiguity probes: an unqualified name that exists on both sides (of two or three tables, filled or empty) must be rejected with an error wherever it stands: bare in the select list, inside a comparison or a later AND/OR term of the select list, in WHERE (first or later term), in ON (first or later term), in ORDER BY, as COUNT's argument, in GROUP BY. Distinct = query text; non-trivial = non-empty expected result or an ambiguity probe."
 	c.Assume = []string{"join keys are non-NULL (the property says so); a side that may have been NULL-padded by an earlier outer join is only compared with = against a stored column"}
 	drv := mustDriver(c, false)
 	n := 100
@@ -337,21 +337,71 @@ func checkC06(c *core.Ctx) []core.Floor {
 			sc.expectErr = append(sc.expectErr, false)
 		}
 		// ambiguity probes
-		for k := 0; k < 4; k++ {
+		for k := 0; k < 10; k++ {
 			col := []string{"a", "u", "s", "b", "f"}[r.Intn(5)]
+			typ := map[string]string{"a": "int", "u": "int", "s": "varchar", "b": "bigint", "f": "boolean"}[col]
 			q := &proto.NStmt{Kind: "select", From: []proto.NTable{{Name: "t1"}, {Name: "t2", Join: []string{"inner", "left", "right"}[r.Intn(3)],
 				On: &proto.Cond{Op: "=", LHS: model.QColOp("t1", "u"), RHS: model.QColOp("t2", "u")}}}}
-			switch k % 3 {
+			if r.Chance(1, 3) {
+				// three tables: the name is ambiguous between the first and the last
+				q.From = append(q.From, proto.NTable{Name: "t3", Join: []string{"inner", "left", "right"}[r.Intn(3)],
+					On: &proto.Cond{Op: "=", LHS: model.QColOp("t2", "u"), RHS: model.QColOp("t3", "u")}})
+			}
+			cmp := func() *proto.Cond { // the bare name inside a comparison, on either side
+				c := &proto.Cond{Op: "=", LHS: model.ColOp(col), RHS: model.LitOp(g.LitFor(typ))}
+				if r.Bool() {
+					c.LHS, c.RHS = c.RHS, c.LHS
+				}
+				return c
+			}
+			fine := &proto.Cond{Op: "=", LHS: model.QColOp("t1", "u"), RHS: model.LitOp(proto.Int(1))}
+			pos := ""
+			switch k {
 			case 0: // in the select list
+				pos = "select_list"
 				q.Items = []proto.NItem{{Kind: "expr", Expr: &proto.Cond{Op: "val", LHS: model.ColOp(col)}}}
 			case 1: // in WHERE
+				pos = "where"
 				q.Star = true
-				lit := g.LitFor(map[string]string{"a": "int", "u": "int", "s": "varchar", "b": "bigint", "f": "boolean"}[col])
-				q.Where = &proto.Cond{Op: "=", LHS: model.ColOp(col), RHS: model.LitOp(lit)}
-			default: // in ON
+				q.Where = cmp()
+			case 2: // in ON
+				pos = "on"
 				q.Star = true
 				q.From[1].On = &proto.Cond{Op: "=", LHS: model.ColOp(col), RHS: model.QColOp("t2", col)}
+			case 3: // inside a comparison in the select list
+				pos = "select_list_comparison"
+				q.Items = []proto.NItem{{Kind: "expr", Expr: &proto.Cond{Op: "val", LHS: model.QColOp("t1", "u")}}, {Kind: "expr", Expr: cmp()}}
+			case 4: // second operand of an AND / OR in the select list
+				pos = "select_list_comparison"
+				e := model.Or(fine, cmp())
+				if r.Bool() {
+					e = model.And(fine, cmp())
+				}
+				q.Items = []proto.NItem{{Kind: "expr", Expr: e}}
+			case 5: // later term of WHERE
+				pos = "where_later_term"
+				q.Star = true
+				q.Where = model.And(fine, cmp())
+				if r.Bool() {
+					q.Where = model.Or(fine, cmp())
+				}
+			case 6: // later term of ON
+				pos = "on_later_term"
+				q.Star = true
+				q.From[1].On = model.And(q.From[1].On, cmp())
+			case 7: // ORDER BY
+				pos = "order_by"
+				q.Star = true
+				q.OrderBy = []proto.NOrder{{Col: proto.Operand{Col: col}, Desc: r.Bool()}}
+			case 8: // argument of COUNT
+				pos = "count_argument"
+				q.Items = []proto.NItem{{Kind: "count", Arg: &proto.Operand{Col: col}}}
+			default: // GROUP BY column
+				pos = "group_by"
+				q.Items = []proto.NItem{{Kind: "expr", Expr: &proto.Cond{Op: "val", LHS: model.ColOp(col)}}, {Kind: "count"}}
+				q.GroupBy = []proto.Operand{{Col: col}}
 			}
+			c.Count("ambiguity_probe_in_"+pos, 1)
 			sc.queries = append(sc.queries, q)
 			sc.texts = append(sc.texts, model.RenderN(q, randStyle(r)))
 			sc.tags = append(sc.tags, "ambiguity_probe")
